@@ -9,6 +9,7 @@ import (
 	"os"
 	"runtime"
 	"sort"
+	"strconv"
 	"strings"
 	"sync"
 	"sync/atomic"
@@ -30,7 +31,7 @@ import (
 var logTailN = 30
 
 // LivenessBudget is the simulated time after which an unfinished script is a hang.
-var LivenessBudget = 6 * time.Hour
+var LivenessBudget = 4 * time.Hour
 
 type memLog struct {
 	mu    sync.Mutex
@@ -270,7 +271,11 @@ func (w *World) outcome() *Outcome {
 		o.Probes[k] = v
 	}
 	for k, v := range w.ufired {
-		o.Fired["user-"+k] += v
+		if strings.HasPrefix(k, "yield-") {
+			o.Fired[k] += v
+		} else {
+			o.Fired["user-"+k] += v
+		}
 	}
 	viol := append([]violation(nil), w.viol...)
 	uev := append([]string(nil), w.uevents...)
@@ -791,8 +796,10 @@ func (w *World) userFaultsFired() int {
 	w.mu.Lock()
 	defer w.mu.Unlock()
 	n := 0
-	for _, v := range w.ufired {
-		n += v
+	for k, v := range w.ufired {
+		if !strings.HasPrefix(k, "yield-") {
+			n += v
+		}
 	}
 	return n
 }
@@ -806,12 +813,22 @@ func (w *World) userPoint(ctx context.Context, site, kind, key string) error {
 	w.uocc[name]++
 	occ := w.uocc[name]
 	var fire *UFault
+	stack := ""
 	for _, f := range w.c.UFaults {
 		if f.Site != site || (f.Key != "" && f.Key != key) || f.Mode == "badpart" {
 			continue
 		}
-		cnt := w.uocc["f|"+site+"|"+f.Key+"|"+f.Mode]
-		w.uocc["f|"+site+"|"+f.Key+"|"+f.Mode] = cnt + 1
+		if f.Where != "" {
+			if stack == "" {
+				buf := make([]byte, 16<<10)
+				stack = string(buf[:runtime.Stack(buf, false)])
+			}
+			if !strings.Contains(stack, f.Where) {
+				continue
+			}
+		}
+		cnt := w.uocc["f|"+site+"|"+f.Key+"|"+f.Mode+"|"+f.Where]
+		w.uocc["f|"+site+"|"+f.Key+"|"+f.Mode+"|"+f.Where] = cnt + 1
 		if cnt < f.Skip {
 			continue
 		}
@@ -856,6 +873,40 @@ func (w *World) yield(point, key string) {
 	w.uocc[name]++
 	occ := w.uocc[name]
 	w.mu.Unlock()
+	// Planned faults at yield points (e.g. kill the machine right after a task's
+	// run returned, and hold this goroutine until the loss has been noticed).
+	for _, f := range w.c.Faults {
+		if f.At.Point != "yield" || f.At.Method != point || (f.At.Key != "" && !strings.HasPrefix(key, f.At.Key)) {
+			continue
+		}
+		w.mu.Lock()
+		w.uocc["yf|"+point+"|"+f.At.Key+"|"+f.Do]++
+		n := w.uocc["yf|"+point+"|"+f.At.Key+"|"+f.Do]
+		w.mu.Unlock()
+		want := f.At.Occ
+		if want == 0 {
+			want = 1
+		}
+		if n != want {
+			continue
+		}
+		target := f.Target
+		if target == "" {
+			// key is "task|http://mN|procs"
+			if parts := strings.Split(key, "|"); len(parts) == 3 {
+				target = strings.TrimPrefix(parts[1], "http://")
+			}
+		}
+		if f.Do == "kill" && w.sys != nil && target != "" {
+			w.sys.Kill(target)
+			w.mu.Lock()
+			w.ufired["yield-kill"]++
+			w.mu.Unlock()
+		}
+		if f.Arg > 0 {
+			time.Sleep(time.Duration(f.Arg))
+		}
+	}
 	// Exit points are observation points only: by then the task's outcome is
 	// already published, and delaying here would stretch the observed
 	// in-flight interval beyond the real one.
@@ -908,9 +959,19 @@ func (w *World) checkObservers() {
 		if r.err != nil || r.ref == nil {
 			continue
 		}
+		// Nodes the root does not depend on are not part of the program.
+		live := make([]bool, len(r.spec.Nodes))
+		live[r.spec.Root()] = true
+		for i := len(r.spec.Nodes) - 1; i >= 0; i-- {
+			if live[i] {
+				for _, j := range r.spec.Nodes[i].In {
+					live[j] = true
+				}
+			}
+		}
 		for i := range r.spec.Nodes {
 			n := &r.spec.Nodes[i]
-			if n.Op != "writerfunc" && n.Op != "scan" {
+			if (n.Op != "writerfunc" && n.Op != "scan") || !live[i] {
 				continue
 			}
 			site := r.spec.Site(i)
@@ -1040,6 +1101,47 @@ func diffStrings(w, g []string) string {
 	return ""
 }
 
+// hashShuffledSite tells whether the writerfunc at site ("<tag>.n<i>.writerfunc")
+// observes the output of a keyed redistribution (reshuffle, reshard, reduce,
+// fold, cogroup), possibly through a key-preserving cgflat map.
+func (w *World) hashShuffledSite(site string) bool {
+	parts := strings.Split(site, ".")
+	if len(parts) != 3 || !strings.HasPrefix(parts[1], "n") {
+		return false
+	}
+	idx, err := strconv.Atoi(parts[1][1:])
+	if err != nil {
+		return false
+	}
+	var find func(steps []Step) *spec.Spec
+	find = func(steps []Step) *spec.Spec {
+		for i := range steps {
+			if sp := steps[i].Spec; sp != nil && sp.Tag == parts[0] {
+				return sp
+			}
+			for _, br := range steps[i].Par {
+				if sp := find(br); sp != nil {
+					return sp
+				}
+			}
+		}
+		return nil
+	}
+	sp := find(w.c.Script)
+	if sp == nil || idx >= len(sp.Nodes) || len(sp.Nodes[idx].In) == 0 {
+		return false
+	}
+	n := &sp.Nodes[sp.Nodes[idx].In[0]]
+	if n.Op == "map" && n.Fn == "cgflat" && len(n.In) > 0 {
+		n = &sp.Nodes[n.In[0]]
+	}
+	switch n.Op {
+	case "reshuffle", "reshard", "reduce", "fold", "cogroup":
+		return true
+	}
+	return false
+}
+
 // checkPlacement builds, per writerfunc site, the table key -> shard and checks
 // that no key is seen in two shards (co-location).
 func (w *World) checkPlacement() map[string]map[string]int {
@@ -1050,8 +1152,17 @@ func (w *World) checkPlacement() map[string]map[string]int {
 	obs := append([]interp.Obs(nil), w.obs...)
 	w.mu.Unlock()
 	out := map[string]map[string]int{}
+	colocated := map[string]bool{}
 	for _, o := range obs {
 		if o.Kind != "w" {
+			continue
+		}
+		if _, ok := colocated[o.Site]; !ok {
+			colocated[o.Site] = w.hashShuffledSite(o.Site)
+		}
+		if !colocated[o.Site] {
+			// Not directly downstream of a keyed (hash) redistribution: rows of
+			// one key may legitimately sit in several shards here.
 			continue
 		}
 		t := out[o.Site]
